@@ -11,7 +11,7 @@ import (
 func init() {
 	register("C17", "Decides structural necessary conditions of 'multi-log submission returns a policy-satisfying SCT set or says it did not': "+
 		"(L1–L6) every access to the state shared by concurrent submissions, weight changes and log-list / root refreshes is made under its mutex (safeSubmissionState, Distributor, Proxy, LogListManager, LogGroupInfo, logListRefresherImpl); "+
-		"(L1–L6 pub:, L7) publication discipline: a guarded field that holds a reference protects the OBJECT behind it — for every such field either no reference loaded from it outlives its critical section (not used after the unlock, not returned, stored elsewhere, sent, captured by a goroutine or a lasting function value) or no function of the module writes into the published object (stores, map stores / deletes, append / copy into it, calls of functions that write through that argument, writes through the local it was published from after the publishing section); a field with both an escaping reference and an in-place mutation fails, and so does an in-place mutation made under the read lock only; "+
+		"(L1–L6 published-object:, L7) publication discipline: a guarded field that holds a reference protects the OBJECT behind it — for every such field either no reference loaded from it outlives its critical section (not used after the unlock, not returned, stored elsewhere, sent, captured by a goroutine or a lasting function value) or no function of the module writes into the published object (stores, map stores / deletes, append / copy into it, calls of functions that write through that argument, writes through the local it was published from after the publishing section); a field with both an escaping reference and an in-place mutation fails, and so does an in-place mutation made under the read lock only; "+
 		"(R1) at most one request per log: SubmitToLog is called only from the per-log goroutine of a group race and only after request() returned true; request() refuses a log that already has a result entry and records the entry before it can return true; result entries are never removed or reset to nil; "+
 		"(R2) distinct logs: the returned set is built only by ranging over the per-log result map and keeps entries that carry an SCT, labelled with their own key; "+
 		"(R3) success ⇔ every group complete: GetSCTs presets every group to 'not complete' before listening for events, records exactly the reported outcome, and returns completenessError over that map on both exits; completenessError is nil only if no entry is false; a race reports Success only from groupComplete(); groupComplete ⇔ needs ≤ 0; needs start at MinInclusions and are decremented only in setResult on the branch that has an SCT (a failed request is booked against no group), and on every path that books the SCT against a group that may still be waiting the log's result entry ends up carrying that SCT; "+
@@ -24,6 +24,7 @@ func init() {
 
 func runC17(r *Run) {
 	r.Assume("Go's memory model: accesses ordered by a common mutex do not race; channel operations are safe")
+	r.pubReset()
 	for i, k := range []string{"safeSubmissionState", "Distributor", "Proxy", "LogListManager", "LogGroupInfo", "logListRefresherImpl"} {
 		r.Rule(fmt.Sprintf("C17.L%d", i+1))
 		r.LockCheck(lockTable[k])
